@@ -127,6 +127,19 @@ def c10_executions(tier, seed):
                 steps.append(('idle',))
         traces.append(run({'rx_routes': rx, 'tx_routes': tx}, steps))
         metas.append({'table': ti, 'sequence': list(seq) if len(seq) <= 8 else list(seq[:8]) + ['...%d' % len(seq)]})
+    # long histories: a repeat arrives after many other identities have been seen
+    for n in ((70,) if tier == 'quick' else (20, 70, 300)):
+        first = mk(src='dtn://src/app', ts=(2000, 0), dest=PROBE, pay=b'first')
+        steps = [('recv', first, {'note': 'first'}), ('idle',)]
+        for j in range(n):
+            steps.append(('recv', mk(src='dtn://src/app', ts=(2000, 1 + j), dest=PROBE if j % 2 else 'dtn://other/svc',
+                                     pay=payload(3, j)), {'note': 'other %d' % j}))
+            if j % 5 == 0:
+                steps.append(('idle',))
+        steps += [('idle',), ('recv', first, {'note': 'first again'}), ('idle',)]
+        rx, tx = ROUTE_TABLES[0]
+        traces.append(run({'rx_routes': rx, 'tx_routes': tx}, steps))
+        metas.append({'table': 0, 'sequence': ['first', '%d others' % n, 'first again']})
     return traces, metas
 
 
@@ -151,7 +164,7 @@ def c11_executions(tier, seed):
         for (k, (kind, num)) in enumerate(zip(kinds, nums)):
             bcrc = crc if k % 2 == 0 else (crc + 1) % 3
             if kind == 'prev':
-                ext.append(prev_node(num, rnd.choice(['dtn://hop%d/' % k, 'ipn:7.0', NODE]), crc=bcrc))
+                ext.append(prev_node(num, rnd.choice(['dtn://hop%d/' % k, 'ipn:7.0', NODE, 'ipn:977000.10.0', 'dtn:none']), crc=bcrc))
             elif kind == 'hop':
                 ext.append(hop_count(num, rnd.choice([5, 30, 255]), rnd.choice([0, 1, 23, 24, 254]), crc=bcrc))
             elif kind == 'age':
@@ -573,4 +586,39 @@ def c06_executions(tier, seed):
         tx = [('dtn://rpt/', 'dtn://rpt/', None)]
         traces.append(run({'rx_routes': rx, 'tx_routes': tx}, steps, scenario={'orig': orig}))
         metas.append({'bundles': [[s, len(f)] for (s, f) in bundles], 'arrivals': arrivals, 'dropped_one': drop})
+    # long histories: the repeats of a completed bundle's fragments arrive after many other bundles, and a bundle
+    # of very many fragments arrives twice over (what has been seen must not be forgotten)
+    for k in range(2 if tier == 'quick' else 12):
+        orig = {}
+        steps = []
+
+        def frags_of(src, ts, total, npieces, salt):
+            pay = payload(total, salt)
+            size = -(-total // npieces)
+            out = [mk(src=src, dest=PROBE, ts=ts, pay=pay[o:o + size], frag=(o, total), crc=1 + (salt % 2))
+                   for o in range(0, total, size)]
+            orig['%s|%d|%d' % (src, ts[0], ts[1])] = {'len': total, 'dig': dig(pay)}
+            return out
+        first = frags_of('dtn://src/app', (9900 + k, 0), 9, 3, k)
+        for f in first:
+            steps.append(('recv', f, {'note': 'first bundle'}))
+        steps.append(('idle',))
+        nother = rnd.choice([40, 70]) if k % 2 == 0 else 0
+        for j in range(nother):
+            for f in frags_of('dtn://src/other%d' % j, (9900 + k, 1 + j), 4, 2, k + j):
+                steps.append(('recv', f, {'note': 'other %d' % j}))
+            steps.append(('idle',))
+        many = frags_of('dtn://src/many', (9950 + k, 0), 100 if k % 2 else 30, 100 if k % 2 else 30, k) if k % 2 else []
+        for rnd_round in range(2):
+            for f in many:
+                steps.append(('recv', f, {'note': 'many round %d' % rnd_round}))
+            steps.append(('idle',))
+        for f in first:
+            steps.append(('recv', f, {'note': 'first bundle again'}))
+        steps.append(('idle',))
+        rx = [(PROBE, 'deliver')]
+        tx = [('dtn://rpt/', 'dtn://rpt/', None)]
+        traces.append(run({'rx_routes': rx, 'tx_routes': tx}, steps, scenario={'orig': orig}))
+        metas.append({'bundles': 'long history', 'other_bundles_between': nother, 'many_fragments_twice': len(many),
+                      'arrivals': len(steps), 'dropped_one': False})
     return traces, metas
